@@ -377,7 +377,12 @@ func VerifC04DependsOn() {
 	}
 	base := mk(c04Doc("depends_on", dep(baseList, "a", "d")))
 	mid := c04Over("depends_on", dep(midList, "b", "c"))
-	last := c04Over("depends_on", map[string]any{"c": map[string]any{"condition": cond, "restart": true}, "d": map[string]any{"condition": cond}})
+	// the last file refines two entries with different values; one of them becomes optional
+	condD := "service_healthy"
+	if cond == condD {
+		condD = "service_completed_successfully"
+	}
+	last := c04Over("depends_on", map[string]any{"c": map[string]any{"condition": cond, "restart": true, "required": false}, "d": map[string]any{"condition": condD}})
 	m, err := tcLoad(nil, nil, base, mid, last)
 	vrtAssert("loads", err == nil)
 	if err != nil {
@@ -386,7 +391,7 @@ func VerifC04DependsOn() {
 	d, _ := tcSvc(m, "s")["depends_on"].(map[string]any)
 	vrtObserve("deps", d)
 	vrtAssert("deps-all-kept", len(d) == 4)
-	vrtAssert("deps-refined-base", get2(d, "d", "condition") == any(cond))
+	vrtAssert("deps-refined-base", get2(d, "d", "condition") == any(condD))
 	get := func(n, f string) any {
 		mm, _ := d[n].(map[string]any)
 		return mm[f]
@@ -394,5 +399,6 @@ func VerifC04DependsOn() {
 	vrtAssert("deps-refined", get("c", "condition") == any(cond) && get("c", "restart") == any(true))
 	vrtAssert("deps-sibling-untouched", get("b", "condition") == any("service_started") && get("b", "restart") == nil)
 	vrtAssert("deps-base-untouched", get("a", "condition") == any("service_started") && get("a", "restart") == nil)
-	vrtAssert("deps-required-default", get("a", "required") == any(true) && get("b", "required") == any(true) && get("c", "required") == any(true))
+	vrtAssert("deps-required-default", get("a", "required") == any(true) && get("b", "required") == any(true) && get("d", "required") == any(true))
+	vrtAssert("deps-required-refined", get("c", "required") == any(false))
 }
